@@ -764,6 +764,15 @@ impl<'a> Interp<'a> {
             _ => norm_algo(opts.get("algo").and_then(|a| a.as_str())).to_string(),
         };
         let streamed = !matches!(entry.as_str(), "write" | "write_algo");
+        if st.get("mid_deletes_bucket").and_then(|v| v.as_bool()) == Some(true) {
+            // while the writer was open its key's bucket file was unlinked (what a full removal of the key by
+            // somebody else does): by the time of the commit the key has no history
+            if let Some(k) = key {
+                self.m.records.remove(&hash::bucket_rel(k));
+                self.m.keys.remove(k);
+                self.fault("bucket.unlinked_while_writer_open");
+            }
+        }
         if st.get("abandon_chunks").and_then(|a| a.as_array()).map(|a| !a.is_empty()).unwrap_or(false) && st["mode"] == "async" {
             // some writes were given up after one poll: which of their bytes reached the file is up to the runtime.
             // Whatever the writer then reports must be self-consistent: the address it returns names a file holding
